@@ -149,6 +149,10 @@ func (srv *Srv) flush(req *SrvReq) {
 	_ = PackRflush(req.Rc)
 	conn.Lock()
 	r := conn.reqs[tag]
+	if r == req {
+		/* a Tflush that names its own tag has nothing to wait for */
+		r = nil
+	}
 	if r != nil {
 		/* flushes of this flush that were handled first already hang off
 		 * req.flushreq: keep them right behind it in r's chain */
